@@ -413,6 +413,7 @@ PROPS["C10"] = {
     "legs": [
         Leg("filter", "c10", "^TestFilter$", checks=(120, 8000), shards=(4, 16), tests=["filter"]),
         Leg("long-stall", "c10", "^TestLongStall$", engine="sched", checks=(1, 3), shards=(2, 4), tests=["long-stall"]),
+        Leg("midnight", "c10", "^TestMidnight$", engine="sched", checks=(1, 3), shards=(2, 4), tests=["midnight"], replay_attempts=2),
         Leg("filter-race", "c10", "^TestFilter$", engine="sched", race=True, checks=(60, 3000), shards=(2, 16), tests=["filter"]),
     ],
 }
